@@ -6,8 +6,8 @@ seed=$1; shift
 checks=${@:-$seed}
 cd /verif
 if [ -n "$(git -C /repo status --porcelain)" ]; then echo "REPO NOT CLEAN"; exit 2; fi
-if ! git -C /repo apply --check seeded/$seed/patch.diff 2>/dev/null; then echo "$seed: PATCH DOES NOT APPLY"; exit 2; fi
-git -C /repo apply seeded/$seed/patch.diff
+if ! git -C /repo apply --check /verif/seeded/$seed/patch.diff 2>/dev/null; then echo "$seed: PATCH DOES NOT APPLY"; exit 2; fi
+git -C /repo apply /verif/seeded/$seed/patch.diff
 for c in $checks; do
   out=$(VERIF_SEED=${VERIF_SEED:-1} ./check $c ${TIER:-quick} 2>&1); rc=$?
   nv=$(echo "$out" | grep -c '^VIOLATION')
